@@ -552,7 +552,9 @@ fn all_cases(tier: Tier) -> (Vec<Case>, Vec<Case>) {
     let mut cases = vec![];
     for b in &bases {
         let a = alphabet(b);
-        for s in dev_sets(a.len(), d) {
+        // quick: pairs of deviations for the states whose base close is signable and one type
+        let dd = if tier == Tier::Quick && !b.anchors && matches!(b.st, St::Equal | St::Skew(_)) { 2 } else { d };
+        for s in dev_sets(a.len(), dd) {
             if s.len() == 2 && dev_kind(&a[s[0]]).chars().take(6).collect::<String>() == dev_kind(&a[s[1]]).chars().take(6).collect::<String>() {
                 continue;
             }
